@@ -313,6 +313,11 @@ package oras
 //@   requires [wf] storage != nil
 //@   let unlimited = opts.Depth <= 0
 //@   call Push set stackPos(K(args.i.Node)) = len(stack) - 1
+//@   call Push#0 requires [C03:start-at-depth-zero] args.i.Depth == 0 && args.i.Node == node
+//@   call Push#1 requires [C03:depth-counts-predecessor-steps] current.Depth < 9223372036854775807 ==> args.i.Depth == current.Depth + 1
+//@   call Push#1 requires [C03:pushes-the-predecessor] args.i.Node == predecessor
+//@   call FindPredecessors requires [C03:depth-limit-stops-search] opts.Depth <= 0 || current.Depth < opts.Depth
+//@   call FindPredecessors requires [C03:asks-about-current-node] args.arg2 == currentNode && args.arg1 == storage
 //@   loop 0 invariant [objects] visited != nil && alive(visited) && rootMap != nil && alive(rootMap) && opts.FindPredecessors != nil && opts.Depth == opts0.Depth
 //@   loop 0 invariant [C03:start-node-seen] K(node) in visited || onStack(stack, K(node))
 //@   loop 0 invariant [C03:worklist] unlimited ==> (forall v, p descriptor.Descriptor :: v in visited && isPredOf(p, v) ==> p in visited || onStack(stack, p))
@@ -338,3 +343,19 @@ package oras
 //@   ensures [C03:upward-closed] result1 == nil && unlimited ==> (forall v, p descriptor.Descriptor :: v in frVisited && isPredOf(p, v) ==> p in frVisited)
 //@   ensures [C03:every-maximal-node-is-a-root] result1 == nil && unlimited ==> (forall v descriptor.Descriptor :: v in frVisited && (forall p descriptor.Descriptor :: !isPredOf(p, v)) ==> (exists i int :: 0 <= i && i < len(result0) && K(result0[i]) == v))
 //@   ensures [C03:roots-are-reached-nodes] result1 == nil ==> (forall i int :: 0 <= i && i < len(result0) ==> K(result0[i]) in frVisited)
+//@
+//@ func copyGraph
+//@   trusted
+//@   modifies all, except syncutil.LimitedRegion.limiter
+//@
+//@ func ExtendedCopyGraph$1
+//@   requires [wf] region == nil || region.limiter != nil
+//@   requires [task-holds-permit] region != nil ==> !region.ended
+//@   ensures [C03,C04:permit-held-again-on-success] result == nil && region != nil ==> !region.ended
+//@   call copyGraph requires [C02,C03:roots-share-tracker-proxy-limiter] args.proxy == proxy && args.limiter == limiter && args.tracker == tracker && args.src == src && args.dst == dst
+//@   call copyGraph requires [C03:copies-the-root] args.root == root && args.opts == opts.CopyGraphOptions
+//@   call copyGraph requires [C02,C03,C04:permit-released-during-copy] region == nil || region.ended
+//@
+//@ func ExtendedCopyGraph
+//@   call findRoots requires [C03:roots-of-the-given-node] args.node == node && args.storage == src
+//@   call Go requires [C03:every-root-dispatched] args.items == roots
